@@ -907,13 +907,11 @@ impl WmoParser {
         &self,
         chunks: &HashMap<ChunkId, Chunk>,
         reader: &mut R,
-        version: WmoVersion,
+        _version: WmoVersion,
         header: &WmoHeader,
     ) -> Result<Option<String>> {
-        // Skybox was introduced in WotLK
-        if !version.supports_feature(WmoFeature::SkyboxReferences) {
-            return Ok(None);
-        }
+        // MVER is 17 from Classic through MoP, so the parsed version cannot tell whether the
+        // file may hold a skybox; the header flag and the MOSB chunk decide
 
         // Check if this WMO has a skybox
         if !header.flags.contains(WmoFlags::HAS_SKYBOX) {
